@@ -3,6 +3,7 @@ package props
 // C20 - derived climate variables are physically ordered.
 
 import (
+	"sort"
 	"fmt"
 	"math"
 
@@ -67,6 +68,30 @@ func checkPoint(c *core.Ctx, elev, T, rh, vp, dew, wb, dT float64) {
 	}
 	if !core.BitEq(dT, T-wb) {
 		c.Violate("deltat-identity", "ClimateVariables", fmt.Sprintf("T=%v RH=%v: deltaT=%v but dryBulb-wetBulb=%v", T, rh, dT, T-wb))
+	}
+}
+
+// checkSeries: every point of a series, and saturation vapour pressure against temperature ACROSS the points of the
+// series (it depends on the dry bulb only: equal temperatures give equal bits, a higher temperature a higher pressure)
+func checkSeries(c *core.Ctx, elev float64, dry, hum []float64, o [][]float64) {
+	for k := range dry {
+		checkPoint(c, elev, dry[k], hum[k], o[0][k], o[1][k], o[2][k], o[3][k])
+	}
+	idx := make([]int, len(dry))
+	for i := range idx {
+		idx[i] = i
+	}
+	sort.Slice(idx, func(a, b int) bool { return dry[idx[a]] < dry[idx[b]] })
+	for k := 1; k < len(idx); k++ {
+		a, b := idx[k-1], idx[k]
+		switch {
+		case dry[a] == dry[b] && !core.BitEq(o[0][a], o[0][b]):
+			c.Violate("vp-not-a-function-of-temperature", "ClimateVariables", fmt.Sprintf("steps %d and %d have the same dry bulb %v but vaporPressure %v and %v", a, b, dry[a], o[0][a], o[0][b]))
+			return
+		case dry[a] < dry[b] && !(o[0][a] < o[0][b]):
+			c.Violate("vp-not-increasing", "ClimateVariables", fmt.Sprintf("vaporPressure(%v)=%v (step %d) is not above vaporPressure(%v)=%v (step %d)", dry[b], o[0][b], b, dry[a], o[0][a], a))
+			return
+		}
 	}
 }
 
@@ -171,9 +196,25 @@ func c20Random(c *core.Ctx) {
 		c.Violate("prepare", "ClimateVariables", err.Error())
 		return
 	}
-	o := out.Out[0]
-	for k := range dry {
-		checkPoint(c, elev, dry[k], hum[k], o[0][k], o[1][k], o[2][k], o[3][k])
+	checkSeries(c, elev, dry, hum, out.Out[0])
+	// one forcing buffer, refilled in place for the next station: the same array object, other contents, same length
+	if c.R.Bool(0.5) {
+		run := &MRun{Model: "ClimateVariables", N: 1, T: n, Sets: []PSet{{{elev}}}, Inputs: [][][]float64{{dry, hum}}}
+		if p, err := Prepare(run); err == nil {
+			p.Exec()
+			dry2, hum2 := make([]float64, n), make([]float64, n)
+			for k := range dry {
+				dry2[k], hum2[k] = dry[n-1-k], hum[(k+n/3)%n]
+			}
+			p.RefillInputs([][][]float64{{dry2, hum2}})
+			if c.R.Bool(0.5) {
+				p.Model = NewModel("ClimateVariables") // another object fed from the same buffer
+				p.Model.ApplyParameters(p.Params)
+			}
+			o2 := p.Exec().Out[0]
+			checkSeries(c, elev, dry2, hum2, o2)
+			c.Tag("inputs:buffer-refilled-in-place")
+		}
 	}
 	// pairwise ordering in temperature at tiny separations around random points
 	for k := 0; k < 50; k++ {
